@@ -13,6 +13,7 @@ import (
 )
 
 const semicolon = ";" // From grpcinterceptors.go in onos-lib-go
+const comma = ","     // separator of the ADMINGROUPS environment variable
 
 // TemporaryEvaluate - simple evaluation of rules until OpenPolicyAgent is added
 // This is so that aether-config can be deployed to the cloud in 2021 Q1 with simple RBAC
@@ -20,10 +21,31 @@ const semicolon = ";" // From grpcinterceptors.go in onos-lib-go
 // TODO replace the following with fine grained RBAC using OpenPolicyAgent Rego in 2021 Q2
 func TemporaryEvaluate(md metautils.NiceMD) error {
 	adminGroups := os.Getenv("ADMINGROUPS")
+	// metadata keys set by the authentication interceptor from the claims of a validated token
+	var identified bool
+	for _, k := range []string{"preferred_username", "name", "email", "groups"} {
+		if _, ok := md[k]; ok {
+			identified = true
+			break
+		}
+	}
+	if !identified {
+		// no authenticated identity is attached to the request (authentication is not enabled)
+		return nil
+	}
 	var match bool
+	admins := strings.Split(adminGroups, comma)
 	for _, g := range strings.Split(md.Get("groups"), semicolon) {
-		if strings.Contains(adminGroups, g) {
-			match = true
+		if g == "" {
+			continue
+		}
+		for _, a := range admins {
+			if a == g {
+				match = true
+				break
+			}
+		}
+		if match {
 			break
 		}
 	}
